@@ -47,6 +47,10 @@ class Gen:
             self.keys.append(("d=rand", 1 + int.from_bytes(r.bytes(32), "big") % (N - 2)))
         self.pub = {d: E.mul(d, E.G) for _, d in self.keys}
 
+    def pubkey(self, d):
+        if d not in self.pub: self.pub[d] = E.mul(d, E.G)
+        return self.pub[d]
+
     def rnd(self, m):
         return int.from_bytes(self.r.bytes(40), "big") % m
 
@@ -85,6 +89,8 @@ class Gen:
         x1 = E.mul(k1, E.G)[0]
         self.sign(d, self.rnd(M256), [N, M256 - 1, N + 1, k2], "sign:retry:k>=n")
         self.sign(d, self.rnd(M256), [0, k2], "sign:retry:k=0")
+        self.sign(d, self.rnd(M256), [(5 << 32) | (6 << 96) | (7 << 160) | (8 << 224)], "sign:nonce:limbs-low-halves-zero")
+        self.sign((3 << 32) | (1 << 96) | (4 << 160) | (1 << 224), self.rnd(M256), [k2], "sign:key:limbs-low-halves-zero")
         self.sign(d, (N - x1) % N, [k1, k2], "sign:retry:r=0")
         self.sign(d, (N - x1) % N + N if (N - x1) % N + N < M256 else (N - x1) % N, [k1, k2], "sign:retry:r=0:e>=n")
         self.sign(d, (N - k1 - x1) % N, [k1, k2], "sign:retry:r+k=n")
@@ -191,6 +197,10 @@ class Gen:
                 ("sum-wraps-2^256", limbs(5, F64, F64, 0xF000000000000000), limbs(F64, 1, 0, 0x0FFFFFFE00000000)),
                 ("r-top-limbs-of-n", limbs(7, 0x7203DF6B21C6052A, F64, 0xFFFFFFFEFFFFFFFF), limbs(3, 1, 0, 0)),
                 ("s-limb0-above-n0:limb1-below", limbs(11, 2, 3, 4), limbs(F64, 0x7203DF6B21C6052A, F64, 0xFFFFFFFEFFFFFFFF))]
+        hi = lambda a, b, c, d_: limbs(a << 32, b << 32, c << 32, d_ << 32)      # every limb has a zero low half
+        pats += [("r-limbs-low-halves-zero", hi(1, 2, 3, 4), limbs(7, 7, 7, 7)), ("s-limbs-low-halves-zero", limbs(9, 8, 7, 6), hi(5, 0, 0, 1)),
+                 ("t-limbs-low-halves-zero", limbs(F64, F64, F64, 1), (hi(3, 1, 4, 9) - limbs(F64, F64, F64, 1)) % N),
+                 ("r-only-top-limb", hi(0, 0, 0, 0x1000), limbs(3, 3, 3, 3)), ("s-only-limb1-high-half", limbs(1, 2, 3, 4), hi(0, 77, 0, 0))]
         for cls, r0, s0 in pats:
             r0 %= N; s0 %= N
             if r0 == 0 or s0 == 0: continue
@@ -404,7 +414,7 @@ class Gen:
             en = ent_hex(ks)
             self.add(line="keygen %s" % en, expr="c01_keygen %s" % q(en), cell="keygen:%s" % cls)
         for cls, d in (("0", 0), ("1", 1), ("2", 2), ("n-2", N - 2), ("n-1", N - 1), ("n", N), ("n+1", N + 1), ("2^256-1", M256 - 1), ("rand", 1 + self.rnd(N - 2)),
-                       ("limb0-only", F64), ("limb-order:n:limb1+1:limb0=0", ((N >> 128) << 128) | ((((N >> 64) & F64) + 1) << 64))):
+                       ("limb0-only", F64), ("limbs-low-halves-zero", (2 << 32) | (7 << 96) | (1 << 160) | (8 << 224)), ("only-high-half-of-limb0", 1 << 40), ("limb-order:n:limb1+1:limb0=0", ((N >> 128) << 128) | ((((N >> 64) & F64) + 1) << 64))):
             self.add(line="setpriv %s" % h(d), expr="c01_setpriv %s" % q(h(d)), cell="setpriv:d=%s" % cls)
             self.add(line="fastkey %s" % h(d), expr="c01_fastkey %s" % q(h(d)), cell="fastkey:d=%s" % cls) if d != 0 or True else None
         P = self.pub[self.keys[3][1]]; Q = self.pub[self.keys[4][1]]
@@ -545,18 +555,18 @@ def phase2(g, first, impl):
             rr, ss = int(w[0], 16), int(w[1], 16)
             with_model = nmodel["sign"] < 12 or "retry" in base
             nmodel["sign"] += 1
-            g.verify(g.pub[c["d"]], c["e"], rr, ss, "verifies:" + base, expect="OK", model=with_model)
+            g.verify(g.pubkey(c["d"]), c["e"], rr, ss, "verifies:" + base, expect="OK", model=with_model)
             if 1 <= rr < N and 1 <= ss < N and with_model:
-                g.vder(g.pub[c["d"]], c["e"], E.der_sig(rr, ss), "verifies-der:" + base, expect="OK")
+                g.vder(g.pubkey(c["d"]), c["e"], E.der_sig(rr, ss), "verifies-der:" + base, expect="OK")
         elif kind == "signder":
-            g.vder(g.pub[c["d"]], c["e"], bytes.fromhex(w[0]), "verifies-der:" + base, expect="OK")
+            g.vder(g.pubkey(c["d"]), c["e"], bytes.fromhex(w[0]), "verifies-der:" + base, expect="OK")
         elif kind == "fastsign":
             rr, ss = int(w[0], 16), int(w[1], 16)
-            g.verify(g.pub[c["d"]], c["e"], rr, ss, "fastsign-verifies:" + c["cls"], expect="OK")
+            g.verify(g.pubkey(c["d"]), c["e"], rr, ss, "fastsign-verifies:" + c["cls"], expect="OK")
             g.cases[-1]["origin"] = c["line"]
         elif kind in ("sstream", "sfinfix"):
             sigs = w[0].split(",")
-            P = g.pub[c["d"]]
+            P = g.pubkey(c["d"])
             for i, (sg, chunks) in enumerate(zip(sigs, c["rounds"])):
                 msg = b"".join(chunks)
                 sgb = bytes.fromhex(sg)
@@ -586,14 +596,14 @@ def phase2(g, first, impl):
                       expr="c01_vctxr %s %s %s" % (q(E.pt_hex(P)), gid(c["idbuf"], c["idlen"]), gl),
                       cell="vctxr:of-%s" % base, expect=",".join(["OK", "ERR"] + ["OK"] * (len(sigs) - 1)))
         elif kind == "sstreamf":
-            P = g.pub[c["d"]]
+            P = g.pubkey(c["d"])
             for i, (sg, chunks) in enumerate(zip(w[0].split(","), c["rounds"])):
                 if sg == "ERR": continue
                 g.vstream(P, c["idbuf"], c["idlen"], [b"".join(chunks)], bytes.fromhex(sg), "vstream:of-%s" % base, expect="OK", model=(i >= 32))
         elif kind == "sign1":
             sgb = bytes.fromhex(w[0])
-            g.vstream(g.pub[c["d"]], c["idbuf"], c["idlen"], r.split(c["msg"], 2), sgb, "vstream:of-%s" % base, expect="OK")
-            g.vstream1(g.pub[c["d"]], c["idbuf"], c["idlen"], c["msg"], sgb, "vstream1:of-%s" % base, expect="OK")
+            g.vstream(g.pubkey(c["d"]), c["idbuf"], c["idlen"], r.split(c["msg"], 2), sgb, "vstream:of-%s" % base, expect="OK")
+            g.vstream1(g.pubkey(c["d"]), c["idbuf"], c["idlen"], c["msg"], sgb, "vstream1:of-%s" % base, expect="OK")
     return g.cases
 
 
